@@ -24,6 +24,8 @@ import (
 type Options struct {
 	// PosMap, if set, is applied to every hcl.Pos printed (with its file name).
 	PosMap func(file string, p hcl.Pos) hcl.Pos
+	// RangeMap, if set, is applied to every hcl.Range printed, before PosMap.
+	RangeMap func(r hcl.Range) (hcl.Range, bool)
 	// OnRange, if set, is called for every hcl.Range met (path = field path).
 	OnRange func(path string, r hcl.Range)
 	// Identity: print pointer-aliasing shape (snapshot mode).
@@ -101,6 +103,13 @@ func (w *walker) rng(path string, r hcl.Range) {
 	if w.o.OnRange != nil {
 		w.o.OnRange(path, r)
 	}
+	if w.o.RangeMap != nil {
+		if m, done := w.o.RangeMap(r); done {
+			// fully mapped: print verbatim
+			fmt.Fprintf(&w.b, "R(%s %d:%d@%d-%d:%d@%d)", m.Filename, m.Start.Line, m.Start.Column, m.Start.Byte, m.End.Line, m.End.Column, m.End.Byte)
+			return
+		}
+	}
 	w.b.WriteString("R(")
 	w.b.WriteString(r.Filename)
 	w.b.WriteByte(' ')
@@ -154,13 +163,13 @@ func (w *walker) value(v reflect.Value, path string) {
 		}
 		fmt.Fprintf(&w.b, "Diag{%d %q %q ", d.Severity, d.Summary, d.Detail)
 		if d.Subject != nil {
-			w.rng(path+".Subject", *d.Subject)
+			w.rng(w.sub(path, ".", "Subject"), *d.Subject)
 		} else {
 			w.b.WriteString("nil")
 		}
 		w.b.WriteByte(' ')
 		if d.Context != nil {
-			w.rng(path+".Context", *d.Context)
+			w.rng(w.sub(path, ".", "Context"), *d.Context)
 		} else {
 			w.b.WriteString("nil")
 		}
@@ -231,7 +240,7 @@ func (w *walker) value(v reflect.Value, path string) {
 			}
 			w.b.WriteString(f.Name)
 			w.b.WriteByte(':')
-			w.value(v.Field(i), path+"."+f.Name)
+			w.value(v.Field(i), w.sub(path, ".", f.Name))
 		}
 		w.b.WriteByte('}')
 	case reflect.Slice:
@@ -256,7 +265,7 @@ func (w *walker) value(v reflect.Value, path string) {
 			if i > 0 {
 				w.b.WriteByte(' ')
 			}
-			w.value(v.Index(i), path+"["+strconv.Itoa(i)+"]")
+			w.value(v.Index(i), w.subi(path, i))
 		}
 		w.b.WriteByte(']')
 	case reflect.Array:
@@ -265,7 +274,7 @@ func (w *walker) value(v reflect.Value, path string) {
 			if i > 0 {
 				w.b.WriteByte(' ')
 			}
-			w.value(v.Index(i), path+"["+strconv.Itoa(i)+"]")
+			w.value(v.Index(i), w.subi(path, i))
 		}
 		w.b.WriteByte(']')
 	case reflect.Map:
@@ -296,12 +305,26 @@ func (w *walker) value(v reflect.Value, path string) {
 			}
 			w.b.WriteString(e.ks)
 			w.b.WriteByte(':')
-			w.value(addressable(v.MapIndex(e.k)), path+"["+e.ks+"]")
+			w.value(addressable(v.MapIndex(e.k)), w.sub(path, "[", e.ks))
 		}
 		w.b.WriteByte(']')
 	default:
 		w.b.WriteString("<" + t.String() + ">")
 	}
+}
+
+func (w *walker) sub(path, sep, name string) string {
+	if w.o.OnRange == nil {
+		return ""
+	}
+	return path + sep + name
+}
+
+func (w *walker) subi(path string, i int) string {
+	if w.o.OnRange == nil {
+		return ""
+	}
+	return path + "[" + strconv.Itoa(i) + "]"
 }
 
 func (w *walker) ident(p uintptr, t reflect.Type) string {
